@@ -30,6 +30,9 @@ func runC02(c *Check, tier string) {
 	ruleR13b(c, analyseGate(c, "R02j"), "R02j")
 	// "executes only if ...": the gate's conjuncts; "irretrievable outputs": the restore path
 	ruleR02m(c)
+	// an unchanged target keeps its key and its result stays usable
+	ruleRecordListsFilledSequentially(c, "R02n")
+	ruleRecordedOutputsComparedAsSets(c, "R02o")
 	useFamily(c, "R02k", famGate, 8)
 	useFamily(c, "R02l", famRestore, 20)
 }
